@@ -108,9 +108,22 @@ fn run_block(ctx: &Ctx, K: usize, T: usize, seed: u64, exhaustive_small: bool, s
     ctx.nontrivial_many(local);
 }
 
+const PAIR_BASE: u64 = 1 << 40;
+
 fn run_object(ctx: &Ctx, seed: u64, idx: u64, st: &[AtomicU64; 4]) {
     let mut rng = Rng::derive(seed, 0x1818, idx);
-    let s = gen_shape(&mut rng, 120, 48, 8);
+    // idx >= PAIR_BASE: directed sweep - an object of 2 or 3 blocks of k+1 and k symbols for every k, so that
+    // every pair of neighbouring block sizes (and with it every pair of neighbouring Table-2 rows) occurs
+    // inside one Encoder, always compared with stand-alone encoders
+    let forced = idx >= PAIR_BASE;
+    let s = if forced {
+        let k = (idx - PAIR_BASE) as usize + 1;
+        let z = 2 + k % 2;
+        let T = 1 + k % 3;
+        crate::props::util::Shape { F: (k * z + 1) * T, T, Z: z, N: 1, Al: 1 }
+    } else {
+        gen_shape(&mut rng, 120, 48, 8)
+    };
     // data: random, constant, or periodic with the period of one symbol / one short block, so that
     // consecutive source blocks can be byte-identical (block numbers must still differ)
     let data = match idx % 4 {
@@ -122,7 +135,7 @@ fn run_object(ctx: &Ctx, seed: u64, idx: u64, st: &[AtomicU64; 4]) {
         }
         _ => rng.bytes(s.F),
     };
-    let r = rng.below(7) as u32;
+    let r = if forced { 3 } else { rng.below(7) as u32 };
     let case = J::obj(vec![("object_case", J::i(idx)), ("seed", J::i(seed)), ("shape", s.json()), ("repair_per_block", J::i(r))]);
     let ks = s.block_ks();
     let got = guarded(|| {
@@ -132,7 +145,7 @@ fn run_object(ctx: &Ctx, seed: u64, idx: u64, st: &[AtomicU64; 4]) {
         let per: Vec<(Vec<EncodingPacket>, Vec<EncodingPacket>)> = enc.get_block_encoders().iter().map(|b| (b.source_packets(), b.repair_packets(0, r))).collect();
         // every block once more as a stand-alone encoder of the same bytes, built on a fresh thread in
         // ascending block-size order: whatever the object encoder computed before must not matter
-        let standalone_differs = if r > 0 && idx % 2 == 0 {
+        let standalone_differs = if r > 0 && (idx % 2 == 0 || forced) {
             let cfg = s.cfg();
             let mut order: Vec<usize> = (0..s.Z).collect();
             order.sort_by_key(|&z| ks[z]);
@@ -229,12 +242,16 @@ pub fn run(ctx: &Ctx) -> i32 {
     let nobj = ctx.args.ex_u64("nobj", ctx.args.pick(20000, 200000)) as usize;
     par_for(nobj, |i| run_object(ctx, ctx.seed(), i as u64, &st));
     ctx.eval(nobj);
+    let npair = ctx.args.ex_u64("kmax", ctx.args.pick(700, 3000)).min(ctx.args.pick(700, 3000)) as usize;
+    par_for(npair, |i| run_object(ctx, ctx.seed(), PAIR_BASE + i as u64, &st));
+    ctx.eval(npair);
+    ctx.cov("objects_of_neighbouring_block_sizes_(k+1,_k)_for_every_k_up_to", J::i(npair));
     ctx.cov("windows_requested", J::i(st[0].load(Relaxed)));
     ctx.cov("blocks_with_three_plan_instances_compared", J::i(st[2].load(Relaxed)));
     ctx.cov("objects_whose_packet_list_order_was_checked", J::i(st[3].load(Relaxed)));
     ctx.floor("window_elements_compared_with_single_requests", st[1].load(Relaxed), 10_000);
     ctx.finish(
-        "per block (K in {1,3,10,11,101,257,1000} x T in {1,8,33,1400,4100}; thorough adds more K up to 56403): encoders from new(), from a generated plan and from a second/cloned plan must be equal; for every window (s,n) (exhaustive s 0..=50 x n 0..=20 for K in {3,10}; random n<=300 with s log-uniform up to 2^24-K-n, one window of 66 000-72 000 packets for K <= 11, including windows ending exactly at ESI 2^24-1; overlapping pairs) element i must carry (SBN, ESI=K+s+i) and equal the single-packet request for that ESI (so overlapping windows agree); per object (multi-block incl. KL != KS; data random, constant or periodic so that consecutive blocks can be byte-identical): get_encoded_packets(r) = block by block, source 0..K-1 then repair K..K+r-1, all ids distinct, equal to the block encoders' own packets. What happens beyond ESI 2^24-1 is outside the property and never requested. non-trivial = window with n>=2; distinct by (K,s,n)",
+        "per block (K in {1,3,10,11,101,257,1000} x T in {1,8,33,1400,4100}; thorough adds more K up to 56403): encoders from new(), from a generated plan and from a second/cloned plan must be equal; for every window (s,n) (exhaustive s 0..=50 x n 0..=20 for K in {3,10}; random n<=300 with s log-uniform up to 2^24-K-n, one window of 66 000-72 000 packets for K <= 11, including windows ending exactly at ESI 2^24-1; overlapping pairs) element i must carry (SBN, ESI=K+s+i) and equal the single-packet request for that ESI (so overlapping windows agree); per object (multi-block incl. KL != KS; data random, constant or periodic so that consecutive blocks can be byte-identical): get_encoded_packets(r) = block by block, source 0..K-1 then repair K..K+r-1, all ids distinct, equal to the block encoders' own packets; every second object, and one directed object of 2-3 blocks of k+1 and k symbols for every k up to 700 / 3000, is compared block by block with stand-alone SourceBlockEncoders built on a fresh thread. What happens beyond ESI 2^24-1 is outside the property and never requested. non-trivial = window with n>=2; distinct by (K,s,n)",
         &["byte-correctness of each symbol is C04's business; here only addressing consistency"],
         vec![],
     )
